@@ -37,3 +37,7 @@ def run(ck):
     funcs.route_selection(ck, "C07.R8")
     fresh.no_hidden_state(ck, "C20.R8")                  # results depend on the documented state only (no caches / memos)
     routes.write_funnel(ck, "C01.R1")                   # from_bin / call / setitem forward raw= so that codes are stored exactly
+    h_, _r = flags.handler_roles(ck, "C04.R1")
+    strings.render_sites(ck, "C11.R1")
+    strings.hex_image(ck, "C11.R2")
+    fresh.reset_only_by_user(ck, "C04.R7")
